@@ -7,6 +7,9 @@
 #include <termios.h>
 #include <unistd.h>
 #include "vi.h"
+#ifdef NEATVI_VERIF
+#include "verif.h"
+#endif
 
 static struct sbuf *term_sbuf;	/* output buffer if not NULL */
 static int rows, cols;		/* number of terminal rows and columns */
@@ -71,9 +74,25 @@ void term_record(void)
 		term_sbuf = sbuf_make();
 }
 
+#ifdef NEATVI_VERIF
+/* bytes sent to the terminal, in order */
+static void term_verif_tty(char *s, long n)
+{
+	if (verif_on() && getenv("NEATVI_VERIF_TTY")) {
+		struct sbuf *sb = verif_rec("tty");
+		verif_key(sb, "s");
+		verif_hex(sb, s, n);
+		verif_emit(sb);
+	}
+}
+#endif
+
 void term_commit(void)
 {
 	if (term_sbuf) {
+#ifdef NEATVI_VERIF
+		term_verif_tty(sbuf_buf(term_sbuf), sbuf_len(term_sbuf));
+#endif
 		write(1, sbuf_buf(term_sbuf), sbuf_len(term_sbuf));
 		sbuf_free(term_sbuf);
 		term_sbuf = NULL;
@@ -82,6 +101,10 @@ void term_commit(void)
 
 static void term_out(char *s)
 {
+#ifdef NEATVI_VERIF
+	if (!term_sbuf)
+		term_verif_tty(s, strlen(s));
+#endif
 	if (term_sbuf)
 		sbuf_str(term_sbuf, s);
 	else
@@ -155,6 +178,14 @@ void term_push(char *s, int n)
 	n = MIN(n, sizeof(ibuf) - ibuf_cnt);
 	memcpy(ibuf + ibuf_cnt, s, n);
 	ibuf_cnt += n;
+#ifdef NEATVI_VERIF
+	if (verif_on()) {
+		struct sbuf *sb = verif_rec("push");
+		verif_key(sb, "s");
+		verif_hex(sb, s, n);
+		verif_emit(sb);
+	}
+#endif
 }
 
 /* return a static buffer containing inputs read since the last term_cmd() */
@@ -183,6 +214,10 @@ int term_read(void)
 	c = ibuf_pos < ibuf_cnt ? (unsigned char) ibuf[ibuf_pos++] : -1;
 	if (icmd_pos < sizeof(icmd))
 		icmd[icmd_pos++] = c;
+#ifdef NEATVI_VERIF
+	if (c >= 0)
+		verif_keyin(c);
+#endif
 	return c;
 }
 
